@@ -548,10 +548,17 @@ TVScalerBare ==
       IN IF fails = {} THEN UNCHANGED <<objs, memo, truth>> /\ l' = l + 1
          ELSE PrintT(<<"GUARDFAIL", l, Ev.a, fails>>) /\ FALSE
 
+\* ---- C18: the trace of one thread that ran concurrently with others.  Every call in it is validated like any other
+\* call (the model of an object depends on that object's own history only: Threads.tla), and the closing event reports the
+\* comparison of this trace, byte for byte, with the trace of the same work run alone in the same process.
+TVAlone == /\ Ev.a = "alone"
+           /\ IF Ev.same THEN UNCHANGED <<objs, memo, truth>> /\ l' = l + 1
+              ELSE PrintT(<<"GUARDFAIL", l, Ev.a, {"ThreadResultsSameAsAlone"}>>) /\ FALSE
+
 Init == objs = <<>> /\ memo = NoMemo /\ truth = <<>> /\ l = 1
 Next == /\ l <= Len(Tr)
         /\ \/ TVReset \/ TVCreate \/ TVMod \/ TVSetInt \/ TVSetBool \/ TVSetReal \/ TVSetSettingsFrom \/ TVSync \/ TVWitness
-           \/ TVOptimize \/ TVSetBasis \/ TVClearBasis \/ TVQueryBasis \/ TVCopy \/ TVDestroy \/ TVScalerBare \/ TVBinv \/ TVBinvQ \/ TVCCall \/ TVReadFile \/ TVReadBasisFuzz \/ TVWitnessQ \/ TVOptimizeQ \/ TVBasisFile \/ TVStateFile \/ TVFileRoundTrip \/ TVDualFile
+           \/ TVOptimize \/ TVSetBasis \/ TVClearBasis \/ TVQueryBasis \/ TVCopy \/ TVDestroy \/ TVScalerBare \/ TVBinv \/ TVBinvQ \/ TVCCall \/ TVReadFile \/ TVReadBasisFuzz \/ TVWitnessQ \/ TVOptimizeQ \/ TVBasisFile \/ TVStateFile \/ TVFileRoundTrip \/ TVDualFile \/ TVAlone
 Spec == Init /\ [][Next]_vars
 
 \* acceptance: one state per consumed line plus the initial state
